@@ -47,7 +47,18 @@ def gen_project(rng):
             nid += 1
             tasks.append(tk(tid, pdeps=[rng.choice(pats)], deps=[102] if rng.random() < 0.3 else [], prods=[nid]))
         elif kind == "gen":
-            tasks.append(tk(tid, pdeps=[rng.choice(pats)], is_gen=True, two_stage=rng.random() < 0.5))
+            p = rng.choice(pats)
+            g = tk(tid, pdeps=[p], is_gen=True, two_stage=rng.random() < 0.5)
+            tasks.append(g)
+            if rng.random() < 0.5:
+                # the generator has a product of its own; a declared task consumes it together with products
+                # of the tasks the generator creates (they get a producer only when the graph is re-created)
+                nid += 1
+                g["prods"] = [nid]
+                tid += 1
+                nid += 1
+                gen_prods = [30000 + 100 * p + j for j in rng.sample([0, 1, 2], rng.randint(1, 2))]
+                tasks.append(tk(tid, deps=[g["prods"][0]] + sorted(gen_prods), prods=[nid]))
         else:
             nid += 1
             tasks.append(tk(tid, deps=[rng.choice(sources)], prods=[nid]))
@@ -242,6 +253,40 @@ def run_id_scenarios(out, rng, n):
                 out.violation("a generated task ran twice in one build", {"scenario": sc["file_sets"], "ran": o["ran"]})
 
 
+def reads_writes(tasks, ids):
+    """what each declared or generated task reads / writes (files, or ("pat", p) for a pattern)"""
+    reads, writes = {}, {}
+    for t in tasks:
+        reads[t["id"]] = set(t["deps"]) | {("pat", p) for p in t["pdeps"]}
+        writes[t["id"]] = set(t["prods"]) | {("pat", p) for p in t["pprods"]}
+    for i in ids:
+        if 20000 <= i < 30000:
+            k = i - 20000
+            reads[i] = {("pat", k // 100)}; writes[i] = {30000 + k}
+        elif 40000 <= i < 50000:
+            k = i - 40000
+            reads[i] = {30000 + k}; writes[i] = {50000 + k}
+    return reads, writes
+
+
+def o_order(cimp, ctx):
+    """C01 with generated tasks: a function starts only after every task that writes something it reads
+    - declared or generated in this build - has finished."""
+    probs = []
+    if cimp["exit"] not in (0, 1):
+        return probs
+    log = cimp["log"]                      # 2*t start, 2*t+1 finish
+    started = [e // 2 for e in log if e % 2 == 0]
+    reads, writes = reads_writes(ctx["op"]["tasks"], set(started))
+    pos = {e: i for i, e in enumerate(log)}
+    for x in started:
+        for u in started:
+            if u != x and writes.get(u, set()) & reads.get(x, set()):
+                if pos.get(2 * u + 1, 10 ** 9) > pos[2 * x]:
+                    probs.append((f"task {x} started before task {u}, whose product it reads, had finished", ()))
+    return probs
+
+
 def o_selection(cimp, ctx):
     """C06 on projects with generated tasks: a started task matches the -k expression or something
     that matches depends on it (generated tasks: 20000+k reads file 10000+k of pattern k // 100 and
@@ -256,18 +301,7 @@ def o_selection(cimp, ctx):
         match = {i for i, nm in names.items() if EC.eval_expr(expr, lambda w, nm=nm: w.lower() in nm.lower())}
     except Exception:  # noqa: BLE001
         return probs
-    # what each task reads / writes
-    reads, writes = {}, {}
-    for t in tasks:
-        reads[t["id"]] = set(t["deps"]) | {("pat", p) for p in t["pdeps"]}
-        writes[t["id"]] = set(t["prods"]) | {("pat", p) for p in t["pprods"]}
-    for i in names:
-        if 20000 <= i < 30000:
-            k = i - 20000
-            reads[i] = {("pat", k // 100)}; writes[i] = {30000 + k}
-        elif 40000 <= i < 50000:
-            k = i - 40000
-            reads[i] = {30000 + k}; writes[i] = {50000 + k}
+    reads, writes = reads_writes(tasks, names)
     eligible, frontier = set(match), list(match)
     while frontier:
         x = frontier.pop()
@@ -281,6 +315,27 @@ def o_selection(cimp, ctx):
     for s_ in set(EO._started(cimp)):
         if s_ in names and s_ not in eligible:
             probs.append((f"task {s_} ({names[s_]}) was executed although neither it nor anything depending on it matches -k {expr!r}", ()))
+    return probs
+
+
+def o_once(cimp, ctx):
+    """C08/C01 on projects with generators: no task function runs twice in a build; a task reported
+    SUCCESS ran exactly once; non-run outcomes did not run."""
+    probs = []
+    if cimp["exit"] not in (0, 1):
+        return probs
+    starts = EO._started(cimp)
+    for t in sorted(set(starts)):
+        if starts.count(t) > 1:
+            probs.append((f"the function of task {t} ran {starts.count(t)} times in one build", ()))
+    for t, o in cimp["reports"]:
+        if o == O["SUCCESS"] and starts.count(t) != 1:
+            probs.append((f"task {t} reported SUCCESS but its function ran {starts.count(t)} times", ()))
+        if o in (O["SKIP"], O["SKIP_UNCHANGED"], O["SKIP_PREVIOUS_FAILED"], O["WOULD_BE_EXECUTED"], O["PERSISTENCE"]) and t in starts:
+            probs.append((f"task {t} reported {EC.OUTCOMES[o]} but its function ran", ()))
+    nfail = sum(1 for _, o in cimp["reports"] if o == O["FAIL"])
+    if (cimp["exit"] == 0) != (nfail == 0):
+        probs.append((f"exit code {cimp['exit']} with {nfail} failed tasks", ()))
     return probs
 
 
@@ -336,7 +391,7 @@ def run(out, tier, seed, proof):
     n = 60 if tier == "quick" else 800
     base = tempfile.mkdtemp(prefix="verifeng_C18_")
     cases = [gen_history(rng, i, base) for i in range(n)]
-    nb, nh = run_phistories(out, cases, seed, "C18", [o_c18, o_selection])
+    nb, nh = run_phistories(out, cases, seed, "C18", [o_c18, o_selection, o_once, o_order])
     run_id_scenarios(out, rng, 4 if tier == "quick" else 40)
     out.coverage["builds_compared"] = nb
     out.coverage["traces_validated_against_impl"] = nh
